@@ -25,6 +25,7 @@ func init() {
 func runC08(c *core.Ctx) {
 	checkStateStoreKeyPrefixes(c)
 	checkNodeStorePositions(c)
+	checkFileOffsetsWide(c)
 	checkSubmitBlockRoot(c, "C08.block-root-bound", true)
 	pkM := "merkle"
 	hl := eng.Obj(c, pkM, "HashLeaf")
